@@ -342,8 +342,9 @@ func c01TagCommand(name, addr string, port int, tag string, plain []string) (h1C
 		case k == "weight":
 			cmd.Weight, _ = strconv.ParseFloat(v, 64)
 		case k == "redirect":
+			// the documented form is redirect=<code>,<url>; anything else carries no meaning and is ignored
 			code, url, ok := strings.Cut(v, ",")
-			if ok {
+			if ok && !strings.Contains(url, ",") {
 				cmd.Dst = url
 				if cmd.Opts == nil {
 					cmd.Opts = map[string]string{}
